@@ -24,6 +24,7 @@ import sys
 import types
 
 MAX_PATHS = 4000
+PER_FUNCTION_SECONDS = 60
 
 
 class Refuse(BaseException):
@@ -975,20 +976,47 @@ def main():
     import symspecs
     files = {}
     report = []
+    import signal
+
+    class TimeLimit(BaseException):
+        pass
+
+    def on_alarm(signum, frame):
+        raise TimeLimit()
+    signal.signal(signal.SIGALRM, on_alarm)
     for fname, source, specs in symspecs.files(udsoncan):
         txt = ''
         TABLES.clear()
-        for sp in specs(udsoncan):
+        try:
+            speclist = specs(udsoncan)
+        except BaseException as ex:       # the functions of this group cannot even be named any more (an API they use is gone): the whole file is refused
+            msg = ('%s: %s' % (type(ex).__name__, ex)).replace('*)', '* )').replace('"', "'")[:300]
+            files[fname] = HEADER % source + '(* REFUSED: %s *)\nDefinition translation_refused : True := "%s".\n' % (msg, msg)
+            report.append((fname, 'REFUSED (whole file): ' + msg))
+            continue
+        for sp in speclist:
+            def refused(msg):
+                msg = msg.replace('*)', '* )').replace('"', "'")[:300]
+                report.append((sp['name'], 'REFUSED: ' + msg))
+                return '(* REFUSED: %s *)\nDefinition %s : True := "translation refused: %s".\n\n' % (msg, sp['name'], msg)
             try:
-                txt += translate(sp) + '\n'
+                signal.setitimer(signal.ITIMER_REAL, PER_FUNCTION_SECONDS)
+                try:
+                    piece = translate(sp) + '\n'
+                finally:
+                    signal.setitimer(signal.ITIMER_REAL, 0)
+                txt += piece
                 report.append((sp['name'], 'ok'))
             except Refuse as r:
-                msg = str(r).replace('*)', '* )').replace('"', "'")
-                txt += '(* REFUSED: %s *)\nDefinition %s : True := "translation refused: %s".\n\n' % (msg, sp['name'], msg)
-                report.append((sp['name'], 'REFUSED: ' + msg))
+                txt += refused(str(r))
+            except TimeLimit:
+                txt += refused('the paths of the function could not be enumerated within %d s' % PER_FUNCTION_SECONDS)
             except RecursionError:
-                txt += 'Definition %s : True := "translation refused: recursion".\n\n' % sp['name']
-                report.append((sp['name'], 'REFUSED: recursion'))
+                txt += refused('recursion')
+            except (Unmodelled, SymbolicText, Sent) as ex:
+                txt += refused('%s outside an execution' % type(ex).__name__)
+            except Exception as ex:       # the stand-ins / observers of symspecs.py no longer fit the code: refuse this function, not the run
+                txt += refused('%s: %s' % (type(ex).__name__, ex))
         tabs = ''.join('Definition %s : list (Z * Z) := [%s].\n' % (n, '; '.join('(%s, %s)' % (zc(k), zc(v)) for k, v in items))
                        for n, items in TABLES.items())
         files[fname] = HEADER % source + tabs + '\n' + txt
